@@ -95,6 +95,10 @@ def target_spec(name):
         units.append((f"{S}/seq/seq_fuzz.cpp", "fuzz.o", fl))
         units += [(f"{REPO}/{f}", f.replace(".cpp", ".o"), fl) for f in REPO_LIB]
         return "clang++", units, ["-fsanitize=fuzzer,address,undefined", "-pthread"], ["seq"]
+    if name == "fuzz_enc":
+        fl = BASE + HOOKS + ["-O1", "-DVERIF_FUZZ", "-fsanitize=fuzzer,address,undefined", "-fno-sanitize-recover=undefined"]
+        units = [(f"{S}/enc/enc_main.cpp", "enc_main.o", fl), (f"{REPO}/art_internal.cpp", "art_internal.o", fl)]
+        return "clang++", units, ["-fsanitize=fuzzer,address,undefined"], ["enc"]
     if name in ("enc_fast", "enc_san"):
         fl = BASE + HOOKS + (["-O2"] if name == "enc_fast" else SAN + ["-O1"])
         units = [(f"{S}/enc/enc_main.cpp", "enc_main.o", fl), (f"{REPO}/art_internal.cpp", "art_internal.o", fl)]
@@ -670,6 +674,36 @@ def check_enc(pid, tier, seed):
             with open(dst, "w") as f:
                 f.write(f"# harness process died rc={rc}; re-run: {' '.join(c)}\n# {err[-1500:]}\n")
             res.violations.append((dst, f"crash rc={rc}: {err[-300:]}"))
+    # second engine: libFuzzer over byte-coded (schema, tuple pair) inputs, same oracle inside the target
+    fz = build("fuzz_enc")
+    fdir = os.path.join(outdir, "fuzz")
+    os.makedirs(fdir)
+    fjobs = 4 if tier == "quick" else NCPU
+    fcmds = []
+    for j in range(fjobs):
+        cdir = os.path.join(fdir, f"corpus{j}")
+        os.makedirs(cdir)
+        fcmds.append([fz, cdir, f"-seed={seed * 100 + j + 1}", "-max_len=500", "-print_final_stats=1",
+                      f"-artifact_prefix={fdir}/art{j}_"] + (["-runs=60000"] if tier == "quick" else ["-max_total_time=600"]))
+    fenv = dict(os.environ, VERIF_FUZZ_PROP=pid, VERIF_FUZZ_OUT=fdir, ASAN_OPTIONS="detect_leaks=0")
+    fexecs = 0
+    for c, rc, out, err in run_parallel(fcmds, timeout=3 * 3600, env=fenv):
+        for l in err.splitlines():
+            if l.startswith("stat::number_of_executed_units:"):
+                fexecs += int(l.split()[-1])
+    fcases = sorted(glob.glob(os.path.join(fdir, "fuzz_fail_*.txt")))
+    for art in sorted(glob.glob(os.path.join(fdir, "art*_crash-*"))):
+        subprocess.run([fz, art], capture_output=True, env=dict(fenv, VERIF_FUZZ_DUMP="1"), timeout=600)
+        lc = os.path.join(fdir, "last_case.txt")
+        if os.path.exists(lc):
+            shutil.move(lc, art + ".txt")
+            fcases.append(art + ".txt")
+    for k, case in enumerate(fcases[:4]):
+        if confirm_replay(san, ["--prop", pid], case):
+            os.makedirs(faildir, exist_ok=True)
+            dst = os.path.join(faildir, f"{pid}_libfuzzer_{k}.txt")
+            shutil.copy(case, dst)
+            res.violations.append((dst, "found by libFuzzer: " + open(case).readline().strip()[:200]))
     counters, distinct, samples = merge_stats([os.path.join(outdir, n + ".json") for n in names])
     chain = counters.get("chain_steps", 0)
     small = counters.get("smalltext_pairs", 0)
@@ -690,6 +724,7 @@ def check_enc(pid, tier, seed):
         "components_by_type": {k[10:]: v for k, v in counters.items() if k.startswith("component.")},
         "discarded_outside_domain_interior_zero": counters.get("discarded_interior_zero", 0),
         "guard_page_encodes": counters.get("guard_page_encodes", 0),
+        "second_engine_libfuzzer": {"jobs": fjobs, "executions": fexecs, "artifacts_examined": len(fcases)},
         "regression_replays": nrep,
         "inconclusive": res.inconclusive,
         "exhaustive": False,
@@ -722,6 +757,7 @@ def run_sched_workers(pid, exe, plans, outdir, res, extra_args=None, timeout=6 *
         cmds.append([this_exe, "--prop", pid, "--cpu", str(i % NCPU), "--out", os.path.join(outdir, f"stats{i}.json"),
                      "--fail-dir", outdir] + pl + (extra_args or []))
     results = run_parallel(cmds, timeout=timeout)
+    harness_errors = 0
     for c, rc, out, err in results:
         for line in out.splitlines():
             if line.startswith("INCONCLUSIVE "):
@@ -745,8 +781,12 @@ def run_sched_workers(pid, exe, plans, outdir, res, extra_args=None, timeout=6 *
         elif rc == "timeout":
             res.inconclusive.append("worker hit the wall-clock budget")
         else:
+            # the harness itself gave up (e.g. scheduler self-check): never a verdict about the library
             log(f"harness error rc={rc}: {' '.join(c)}\n{out[-500:]}\n{err[-1500:]}")
-            raise SystemExit(2)
+            res.inconclusive.append(f"worker {os.path.basename(c[0])} ended with a harness error (rc={rc}): {err.strip()[-160:]}")
+            harness_errors += 1
+    if harness_errors and harness_errors == len(cmds):
+        raise SystemExit(2)   # nothing was explored at all
 
 
 def sched_replays(pid, exe, res, extra_args=None):
@@ -1356,7 +1396,7 @@ def main():
     a = ap.parse_args()
     os.makedirs(WORK, exist_ok=True)
     if a.build_all:
-        for t in ["seq", "fuzz_seq", "enc_fast", "enc_san", "lock", "qsbr", "olc", "olc_nd", "qsbr_fault", "qp_dbg", "qp_ndbg", "mx", "mx_tsan"] + [f"cfgx_{i}" for i in range(16)]:
+        for t in ["seq", "fuzz_seq", "enc_fast", "enc_san", "fuzz_enc", "lock", "qsbr", "olc", "olc_nd", "qsbr_fault", "qp_dbg", "qp_ndbg", "mx", "mx_tsan"] + [f"cfgx_{i}" for i in range(16)]:
             build(t)
         return 0
     seed = a.seed if a.seed is not None else int(os.environ.get("VERIF_SEED", "1") or 1)
